@@ -93,8 +93,17 @@ def parseOp : Sx → Option Op
     | _ => none
   | _ => none
 
+/-- objects whose request does not serialize: `(x<method> unser)` -/
+def unserObjs : Sx → List Nat
+  | .list (.atom "objs" :: os) =>
+    (os.zipIdx.filterMap fun (o, i) => match o with
+      | Sx.list [_, Sx.atom "unser"] => some i
+      | _ => none)
+  | _ => []
+
 def parseObjs : Sx → Option (List (String × Json))
   | .list (.atom "objs" :: os) => os.mapM fun o => match o with
+    | Sx.list [m, Sx.atom "unser"] => (asStr m).map fun m => (m, Json.null)
     | Sx.list [m, p] => do
       let m ← asStr m
       let p ← toJson p
@@ -185,10 +194,12 @@ def obsSx (trace : List (Nat × Res)) (log : List Request) (slots : Option Conn)
 
 def mkObjs (objs : List (String × Json)) : List MCall := objs.map fun (m, p) => MCall.new m p
 
-def runSeqCase (dec : Decoder) (objs : List (String × Json)) (ops : List Op) (groups : List (Bool × List Msg)) (wb : Option Nat) : Sx :=
+def runSeqCase (dec : Decoder) (objs : List (String × Json)) (ops : List Op) (groups : List (Bool × List Msg)) (wb : Option Nat)
+    (unser : List Nat := []) : Sx :=
   let g0 : GState := {
     wire := { queue := ((groups[0]?).getD (false, [])).2, closed := ((groups[0]?).getD (false, [])).1, wbudget := wb },
-    objs := mkObjs objs, progs := [ops] }
+    objs := (mkObjs objs).zipIdx.map (fun (m, i) => if unser.contains i then { m with unser := true } else m),
+    progs := [ops] }
   let g := runSeq (scriptPeer groups) dec (2 * ops.length + 2) g0
   let blocked := (g.progs[0]?).getD [] != []
   obsSx g.trace g.wire.log (if blocked then none else some g.conn) blocked
@@ -220,18 +231,18 @@ def runCase : Sx → Option Sx
   | .list [.atom "kind", r] => do
     let r ← parseReply r
     pure (.list [.atom "kind-obs", ofKind (kindOf r)])
-  | .list [.atom "seq", objs, ops, groups, wb] => do
-    let objs ← parseObjs objs
+  | .list [.atom "seq", objsSx, ops, groups, wb] => do
+    let objs ← parseObjs objsSx
     let ops ← parseOps "ops" ops
     let groups ← parseGroups groups
     let wb := asNat wb
-    pure (runSeqCase decValue objs ops groups wb)
-  | .list [.atom "seq", objs, ops, groupsSx, wb, rtype] => do
-    let objs ← parseObjs objs
+    pure (runSeqCase decValue objs ops groups wb (unserObjs objsSx))
+  | .list [.atom "seq", objsSx, ops, groupsSx, wb, rtype] => do
+    let objs ← parseObjs objsSx
     let ops ← parseOps "ops" ops
     let groups ← parseGroups groupsSx
     let wb := asNat wb
-    pure (runSeqCase (decoderOf rtype groupsSx) objs ops groups wb)
+    pure (runSeqCase (decoderOf rtype groupsSx) objs ops groups wb (unserObjs objsSx))
   | .list [.atom "gated", objs, progs, .list (.atom "sched" :: ts)] => do
     let objs ← parseObjs objs
     let progs ← parseProgs progs
@@ -289,13 +300,13 @@ def predCase (cs os : Sx) : Verdict :=
        | _, none => if k == .errorReply r then none else some "reply-without-error-not-kept-whole"
        | _, _ => some "internal")
     | _, _ => some "unparsable-kind-case"
-  | .list (.atom "seq" :: objs :: ops :: groupsSx :: wb :: rt),
+  | .list (.atom "seq" :: objsSx :: ops :: groupsSx :: wb :: rt),
     .list [.atom "obs", .list (.atom "res" :: res), .list (.atom "log" :: log), slots, blocked] =>
-    match parseObjs objs, parseOps "ops" ops, parseGroups groupsSx, parseTrace res with
+    match parseObjs objsSx, parseOps "ops" ops, parseGroups groupsSx, parseTrace res with
     | some objs, some ops, some groups, some tr =>
       let (lg, raw) := parseLog log
       let dec : Decoder := match rt with | [r] => decoderOf r groupsSx | _ => decValue
-      P_C07_seq { objs, ops, groups, wbudget := asNat wb, dec := dec }
+      P_C07_seq { objs, ops, groups, wbudget := asNat wb, dec := dec, unser := unserObjs objsSx }
         { results := tr.map (·.2), log := lg, rawLog := raw, slots := parseSlots slots,
           blocked := (match blocked with | .atom "t" => true | _ => false) }
     | _, _, _, _ => some "unparsable-seq-case-or-observation"
